@@ -54,6 +54,8 @@ def margin(spec, p):
     """> 0: inside the accepted set by that much; < 0: outside by that much."""
     k = spec["kind"]
     hi = math.inf if spec.get("max") is None else spec.get("max")
+    if p == math.inf:
+        return math.inf if (hi == math.inf and k != "finite") else -math.inf
     if k == "cont":
         return min(p + ATOL - spec["min"], hi + ATOL - p)
     if k == "deadband":
@@ -168,9 +170,7 @@ def prop(spec, rec):
             require(after == before, "reject_state_unchanged", lambda: "rejected pilot %r changed state: before %r after %r" % (p, before, after))
 
     # --- advertised values are accepted
-    adv = []
-    if math.isfinite(evse.max_rate):
-        adv.append(("max_rate", evse.max_rate))
+    adv = [("max_rate", evse.max_rate)]
     adv.append(("min_rate", evse.min_rate))
     for v in evse.allowable_pilot_signals:
         adv.append(("allowable_pilot_signals", v))
@@ -220,9 +220,14 @@ def prop(spec, rec):
             adv.append(("loaded ChargingNetwork.allowable_rates", v))
     for where, v in adv:
         v = float(v)
-        if not math.isfinite(v):
-            continue
-        require(margin(es, v) > GUARD, "advertised_in_set", lambda: "%s advertises %r which is not in the allowable set of %r" % (where, v, es))
+        if v == math.inf:
+            # "no upper limit" is advertised as an infinite maximum; like every advertised value it
+            # must itself be accepted
+            require(es["kind"] != "finite" and es.get("max") is None, "advertised_in_set", lambda: "%s advertises an infinite value for %r" % (where, es))
+            labels.add("infinite_maximum_fed_back")
+        else:
+            require(math.isfinite(v), "advertised_in_set", lambda: "%s advertises %r" % (where, v))
+        require(v == math.inf or margin(es, v) > GUARD, "advertised_in_set", lambda: "%s advertises %r which is not in the allowable set of %r" % (where, v, es))
         try:
             evse.set_pilot(v, V, period)
         except Exception as e:  # noqa: BLE001
@@ -338,6 +343,11 @@ def cases(draw):
     grid = [b + d for b in gb for d in DELTAS]
     hi = max(bnds) if bnds else 32.0
     extra = draw(st.lists(st.one_of(st.floats(-1, hi + 5), st.floats(0, hi + 1).map(lambda x: round(x, 2))), min_size=0, max_size=8))
+    if es.get("max", 0) is None:
+        # no upper limit: huge and infinite pilots are in the allowable set
+        extra = extra + draw(st.lists(st.sampled_from([1e6, 1e12, float("inf")]), max_size=2))
+    elif draw(st.integers(0, 7)) == 0:
+        extra = extra + [float("inf")]
     pilots = list(draw(st.permutations(grid + extra)))
     # 0 A matters for every class (it is what an idle station is sent), also as the very first pilot
     zero_at = draw(st.sampled_from([0, 0, None, len(pilots) // 2]))
@@ -362,7 +372,7 @@ def subchecks(tier):
             prop,
             quick=1500,
             thorough=150000,
-            floors={"near_boundary": 0.454, "rejected": 0.5, "with_ev": 0.149, "finite": 0.15, "deadband": 0.08, "cont": 0.15},
+            floors={"near_boundary": 0.454, "rejected": 0.5, "with_ev": 0.149, "finite": 0.15, "deadband": 0.08, "cont": 0.15, "infinite_maximum_fed_back": 0.05},
         )
     ]
 
